@@ -1,0 +1,50 @@
+//go:build verif
+// +build verif
+
+package galaxy
+
+import (
+	"net/http"
+
+	"github.com/emicklei/go-restful"
+	"k8s.io/client-go/kubernetes"
+	"tkestack.io/galaxy/pkg/galaxy/options"
+	"tkestack.io/galaxy/pkg/network/portmapping"
+	"tkestack.io/galaxy/pkg/policy"
+)
+
+// This file only exists with the `verif` build tag. It lets an external harness build a Galaxy over an injected
+// kube client, port mapping handler and policy manager (no docker endpoint, no exec-backed iptables, no fixed
+// unix socket) and serve the real /cni handler from its own listener.
+
+// VerifNew creates a Galaxy from the given configuration and runs the real network configuration check.
+func VerifNew(conf JsonConf, opts *options.ServerRunOptions, client kubernetes.Interface,
+	pmhandler *portmapping.PortMappingHandler, pm *policy.PolicyManager) (*Galaxy, error) {
+	g := NewGalaxy()
+	if opts != nil {
+		g.ServerRunOptions = opts
+	}
+	g.JsonConf = conf
+	if err := g.checkNetworkConf(); err != nil {
+		return nil, err
+	}
+	g.client = client
+	g.pmhandler = pmhandler
+	g.pm = pm
+	return g, nil
+}
+
+// VerifHandler returns an http.Handler serving the real /cni route in a private container.
+func (g *Galaxy) VerifHandler() http.Handler {
+	ws := new(restful.WebService)
+	ws.Route(ws.GET("/cni").To(g.cni))
+	ws.Route(ws.POST("/cni").To(g.cni))
+	container := restful.NewContainer()
+	container.Add(ws)
+	return container
+}
+
+// VerifCleanIPtables is the clean-port callback the real daemon hands to the garbage collector.
+func (g *Galaxy) VerifCleanIPtables(containerID string) error {
+	return g.cleanIPtables(containerID)
+}
